@@ -310,6 +310,17 @@ def op_wsum(c, o):
     return out if snap(r) == before else ["mutated", "operand changed"]
 
 
+def op_encode_runs(c, o):
+    """from_array of a long array given run by run; the encoding is reported by its boundaries and values"""
+    dt, runs = c[1], c[2]
+    a = np.repeat(dec_seq([v for v, _ in runs], dt), [int(n) for _, n in runs])
+    r = RunLengthArray.from_array(a)
+    if not np.array_equal(np.asarray(r.to_array()), a):
+        return ["broken", "the long array does not decode to itself"]
+    ends = ints(r.ends)
+    return ["rlenc", dt_of(np.asarray(r.values).dtype), int(len(r)), ints(r.starts) + ([ends[-1]] if ends else [0]), enc_seq(np.asarray(r.values), False, dt)]
+
+
 def op_astype(c, o):
     dt, seq, to = c[1], c[2], c[3]
     r = mk_rl(dt, seq, o.get("via", "from_array"))
@@ -417,7 +428,7 @@ def op2_concat(c, o):
     return proj(res)
 
 
-OPS = {"rl_roundtrip": op_roundtrip, "rl_getitem": op_getitem, "rl_ufunc": op_ufunc, "rl_reduce": op_reduce, "rl_astype": op_astype, "rl_wsum": op_wsum, "rl_hist": op_hist,
+OPS = {"rl_roundtrip": op_roundtrip, "rl_getitem": op_getitem, "rl_ufunc": op_ufunc, "rl_reduce": op_reduce, "rl_astype": op_astype, "rl_encode_runs": op_encode_runs, "rl_wsum": op_wsum, "rl_hist": op_hist,
        "rl_concat": op_concat, "rl2_getitem": op2_getitem, "rl2_func": op2_func, "rl2_ufunc": op2_ufunc, "rl2_concat": op2_concat}
 
 
